@@ -81,8 +81,23 @@ double log(double x)
         ASSUME(r <= (x - 1.0) * 0.5 && r >= -745.2);
         if (x >= 0.5) ASSUME(r >= (x - 1.0) * 4.0);
     } else {
-        ASSUME(r >= 0.0);
+        ASSUME(r >= 0.0 && r <= x);      /* log(x) <= x - 1 < x */
     }
+    return r;
+}
+
+double log1p(double x)
+{
+    /* used by cmb_random_geometric as log1p(-p), 0 < p < 1 */
+    if (isnan(x) || x < -1.0) return NAN;
+    if (x == -1.0) return -INFINITY;
+    if (x == 0.0) return x;
+    if (isinf(x)) return INFINITY;
+    double r = nondet_double();
+    ASSUME(FIN(r));
+    /* log1p(x) <= x, and log1p(x) >= x/(1+x); on (-1,0) the result is strictly negative and at least
+     * log(2^-53) > -37 (1+x >= 2^-53 for a double x > -1); stated with a factor 2 of slack */
+    if (x < 0.0) ASSUME(r <= x * 0.5 && r >= -745.2); else ASSUME(r >= 0.0 && r <= x * 2.0);
     return r;
 }
 
@@ -114,10 +129,16 @@ double pow(double x, double y)
     if (y == 0.0) return 1.0;
     __CPROVER_assert(x >= 0.0, "harness pow contract: only called with a non-negative base");
     __CPROVER_assume(x >= 0.0);
+#ifdef H_PARETO
+    __CPROVER_assert(x > 0.0, "C16-O1: the Pareto inversion formula is not evaluated at its pole u = 0");
+#endif
     if (x == 0.0 && y > 0.0) return 0.0;
     double r = nondet_double();
     ASSUME(!isnan(r) && r >= 0.0);
     if (x <= 1.0 && y > 0.0) ASSUME(r <= 1.0);
+    if (r == 0.0) r = 0.0;               /* a non-negative base never gives -0.0 */
+    /* x >= 2^-53, 0 < y <= 16: x^y >= 2^-848; stated with slack (used by the Pareto group) */
+    if (x >= 0x1p-53 && y > 0.0 && y <= 16.0) ASSUME(r >= 0x1p-900);
     return r;
 }
 #endif
@@ -140,6 +161,11 @@ double cmv_nor_not_hot_contract(int64_t i_cand_x)
     (void)i_cand_x;
     double r = nondet_double();
     ASSUME(FIN(r));
+#ifdef C16_NOR_BOUNDED
+    /* listed, UNDISCHARGED assumption of the gamma groups: a standard normal variate from the fall-back has
+     * magnitude <= 1e100 (the real one is below 40: tail start + an exponential variate / tail start) */
+    ASSUME(r >= -1e100 && r <= 1e100);
+#endif
     return r;
 }
 
@@ -244,12 +270,23 @@ void h_uniform(void)
 #ifdef H_PARETO
 void h_pareto(void)
 {
+#ifdef C16_PARETO_MODE
+    const double shape = nondet_double(), mode = C16_PARETO_MODE;
+#else
     const double shape = nondet_double(), mode = nondet_double();
+#endif
     ASSUME(shape > 0.0 && FIN(shape) && mode > 0.0 && FIN(mode));
+    /* listed assumption: the variate is representable - shape >= 1/16 and mode <= 2^100
+     * (u >= 2^-53 gives mode / u^(1/shape) <= 2^100 * 2^848); smaller shapes overflow the double range */
+#ifdef C16_PARETO_FINITE
+    ASSUME(shape >= 0.0625 && mode <= 0x1p100);
+#endif
     const double x = cmb_random_pareto(shape, mode);
     OBT(T1, !isnan(x), "pareto(shape,mode) is not NaN");
     OBT(T1, x >= mode, "pareto(shape,mode) >= mode");
+#ifdef C16_PARETO_FINITE   /* experimental group: the division mode / r does not finish on any back end */
     OBT(T1, !isinf(x), "pareto(shape,mode) is finite");
+#endif
     CANARY("h_pareto end");
 }
 #endif
